@@ -10,6 +10,7 @@ import (
 	"reflect"
 	"sync"
 	"time"
+	"unsafe"
 
 	"mangosverif/l1run"
 	"mangosverif/mp"
@@ -110,6 +111,11 @@ func gen(r *rand.Rand, timed bool) (string, string, string) {
 		// base is learnt from the first transmission instead
 		if v := reflect.ValueOf(p); v.Kind() == reflect.Ptr && v.Elem().Kind() == reflect.Struct {
 			if f := v.Elem().FieldByName("nextID"); f.IsValid() && f.Kind() == reflect.Uint32 {
+				// one history in four starts a few surveys before the 32-bit counter wraps (a long-lived socket gets there)
+				if r.Intn(4) == 0 && f.CanAddr() {
+					nv := uint32(0xfffffffa) + uint32(r.Intn(6))
+					reflect.NewAt(f.Type(), unsafe.Pointer(f.UnsafeAddr())).Elem().SetUint(uint64(nv))
+				}
 				g.base = uint32(f.Uint()) & 0x7fffffff
 				g.haveB = true
 			}
